@@ -266,6 +266,7 @@ class Body:
         if hasattr(self, "_flags"):
             return self._flags
         cand = set()
+        single = set()
         for l, ld in enumerate(self.locals):
             if ld["ty"] != "bool" or l == 0 or (1 <= l <= self.argc):
                 continue
@@ -274,6 +275,10 @@ class Body:
                 continue
             if all(k == "assign" and o["rv"]["k"] == "use" and o["rv"]["op"]["k"] == "const" and o["rv"]["op"].get("int") in ("0", "1") for (b, i, k, o) in ds):
                 cand.add(l)
+            elif len(ds) == 1:
+                # computed once (`let needs_new = opt.map_or(true, ..)`) and then only tested: two tests of it agree
+                cand.add(l)
+                single.add(l)
         # drop borrowed ones
         for b in range(self.n):
             for st in self.blocks[b]["s"]:
@@ -285,10 +290,11 @@ class Body:
             if t["k"] != "switch" or t["d"]["k"] not in ("copy", "move") or t["d"]["pl"].get("p"):
                 continue
             l = t["d"]["pl"]["l"]
-            if l in cand:
+            ds = self.defs().get(l, [])
+            is_temp = len(ds) == 1 and ds[0][2] == "assign" and ds[0][3]["rv"]["k"] == "use" and ds[0][3]["rv"]["op"]["k"] in ("copy", "move") and not ds[0][3]["rv"]["op"]["pl"].get("p") and ds[0][3]["rv"]["op"]["pl"]["l"] in cand and ds[0][0] == b
+            if l in cand and not is_temp:
                 ctl[b] = l
                 continue
-            ds = self.defs().get(l, [])
             if len(ds) == 1 and ds[0][2] == "assign":
                 rv = ds[0][3]["rv"]
                 if rv["k"] == "use" and rv["op"]["k"] in ("copy", "move") and not rv["op"]["pl"].get("p") and rv["op"]["pl"]["l"] in cand:
@@ -296,6 +302,11 @@ class Body:
                     if ds[0][0] == b:
                         ctl[b] = rv["op"]["pl"]["l"]
         flags = set(ctl.values())
+        # a computed-once flag is only interesting when it is tested at least twice
+        for f in list(flags):
+            if f in single and sum(1 for v in ctl.values() if v == f) < 2:
+                flags.discard(f)
+                ctl = {b: v for b, v in ctl.items() if v != f}
         self._flags = (flags, ctl)
         return self._flags
 
@@ -307,10 +318,28 @@ class Body:
             return self.reachable(starts, removed)
         order = sorted(flags)
         idx = {f: i for i, f in enumerate(order)}
-        init = tuple([None] * len(order))
+
+        def implied(s):
+            """flag values implied by being at block s: s is dominated by the target of one edge of a switch on the flag,
+            that target has no other way in, and the flag is not (re)assigned from there on"""
+            vals = [None] * len(order)
+            doms = self.dominators().get(s, ())
+            for cb, f in ctl.items():
+                t = self.blocks[cb]["t"]
+                edges = [(int(sv), sb) for (sv, sb) in t["vals"]]
+                rest = {0, 1} - {v for v, _ in edges}
+                if len(rest) == 1:
+                    edges.append((rest.pop(), t["else"]))
+                for (v, tb) in edges:
+                    if tb in doms and self.preds()[tb] == [cb] and sum(1 for (_v, x) in edges if x == tb) == 1:
+                        defblocks = {d[0] for d in self.defs().get(f, [])}
+                        if not (defblocks & self.reachable([tb])):
+                            vals[idx[f]] = v
+            return tuple(vals)
+
         seen = set()
         out = set()
-        st = [(s, init) for s in starts if s not in removed]
+        st = [(s, implied(s)) for s in starts if s not in removed]
         while st:
             b, vals = st.pop()
             if (b, vals) in seen:
@@ -327,8 +356,10 @@ class Body:
                         v[idx[s_["pl"]["l"]]] = int(rv["op"].get("int", "0"))
                     else:
                         v[idx[s_["pl"]["l"]]] = None
-            vt = tuple(v)
             t = self.blocks[b]["t"]
+            if t["k"] == "call" and not t["dest"].get("p") and t["dest"]["l"] in idx:
+                v[idx[t["dest"]["l"]]] = None  # (re)computed by this call
+            vt = tuple(v)
             succs = self.succ(b)
             if b in ctl and v[idx[ctl[b]]] is not None:
                 val = v[idx[ctl[b]]]
@@ -339,6 +370,21 @@ class Body:
                 if tgt is None:
                     tgt = t["else"]
                 succs = [tgt]
+            elif b in ctl:
+                # value unknown: follow every edge and remember which value it stands for
+                fi = idx[ctl[b]]
+                listed = {int(sv) for (sv, _sb) in t["vals"]}
+                for (sv, sb) in t["vals"]:
+                    if sb not in removed:
+                        v2 = list(v)
+                        v2[fi] = int(sv)
+                        st.append((sb, tuple(v2)))
+                if t["else"] not in removed:
+                    v2 = list(v)
+                    rest = {0, 1} - listed
+                    v2[fi] = rest.pop() if len(rest) == 1 else None
+                    st.append((t["else"], tuple(v2)))
+                continue
             for s_ in succs:
                 if s_ not in removed:
                     st.append((s_, vt))
